@@ -152,7 +152,8 @@ def _build0(d, maxdim):
     parts = _partition(d, 0, 0, h - 1, w - 1, 3)
     args = [['r', rng(*p)] for p in parts]
     for _ in range(d.pick(4)):
-        args.append(['n', d.choice([5, -3, 2.5, 0, 100, 7])])
+        args.append(['n', d.choice([5, -3, 2.5, 0, 100, 7, 0.0025, 150.0,
+                                    1250.0, 0.375])])
     if d.pick(5) == 0:
         # the SAME range (or scalar) named twice in one call
         args.append(list(args[d.pick(len(args))]))
@@ -311,9 +312,16 @@ def _dollar(a):
     return '$%s%s:$%s%s' % (c1, r1, c2, r2)
 
 
+# scalars that are WRITTEN in scientific notation with a fractional
+# mantissa and a signed exponent
+SCI = {0.0025: '2.5E-3', 150.0: '1.5e+2', 1250.0: '1.25E+3',
+       0.375: '3.75E-1'}
+
+
 def _render(fn, args):
     return '=%s(%s)' % (fn, ','.join(
         _dollar(a) if k == 'r' else ('Other!' + _dollar(a)) if k == 'r2'
+        else SCI[a] if isinstance(a, float) and a in SCI
         else repr(a) for k, a in args))
 
 
